@@ -209,6 +209,9 @@ func onPongMessageReader(message any, reader *Reader, codec Codec) error {
 
 func onPongMessageWriter(message any, writer *Writer, codec Codec) error {
 	m := message.(*PongMessage)
+	if m.Ping == nil {
+		return fmt.Errorf("pong message has no ping")
+	}
 	return writer.WriteFrom(m.Ping.Time.UnixNano(), m.RespondTime.UnixNano())
 }
 
